@@ -159,6 +159,18 @@ uint64_t cmb_wtdsummary_merge(struct cmb_wtdsummary *tgt,
     cmb_assert_release(ws2 != NULL);
     cmb_assert_release(((struct cmb_datasummary *)ws2)->cookie == CMI_INITIALIZED);
 
+    /* The formulas below divide by the combined weight; an empty summary
+     * contributes nothing, so the result is (a copy of) the other one. */
+    if (cmb_wtdsummary_count(ws2) == 0u) {
+        *tgt = *ws1;
+        return cmb_wtdsummary_count(tgt);
+    }
+
+    if (cmb_wtdsummary_count(ws1) == 0u) {
+        *tgt = *ws2;
+        return cmb_wtdsummary_count(tgt);
+    }
+
     struct cmb_wtdsummary tws = { 0 };
     cmb_wtdsummary_initialize(&tws);
     struct cmb_datasummary *ts = (struct cmb_datasummary *)(&tws);
